@@ -11,6 +11,7 @@ func init() {
 	vRegister("HarnessC07_clean", HarnessC07_clean)
 	vRegister("HarnessC07_required", HarnessC07_required)
 	vRegister("HarnessC07_hidden", HarnessC07_hidden)
+	vRegister("HarnessC07_viaref", HarnessC07_viaref)
 	vRegister("HarnessC07_outputs", HarnessC07_outputs)
 	vRegister("HarnessC07_encode", HarnessC07_encode)
 	vRegister("HarnessC07_latin1", HarnessC07_latin1)
@@ -190,6 +191,46 @@ func HarnessC07_hidden() {
 	vObserve("out", outs[0])
 	vAssert("C07.hidden.out", vEq(outs[0], map[string]any{"v": 1}))
 	vCover("hidden.checked")
+}
+
+// HarnessC07_viaref: a marker that sits in a hidden subtree does not fail the
+// evaluation by itself (C07_hidden), but a visible value that obtains it
+// through a reference - a one-reference interpolation, "$merge:"/"$replace:"
+// strings, a $replace map - would emit it: evaluation must fail.
+func HarnessC07_viaref() {
+	marker := []string{"$required", "$delete", "$bogus", "$match"}[ndChoice(4)]
+	hidden := map[string]any{"$output": false, "name": marker, "ok": "plain"}
+	var ref any
+	switch ndChoice(5) {
+	case 0:
+		ref = `$"{h.name}"`
+	case 1:
+		ref = "$merge:h.name"
+	case 2:
+		ref = "$replace:h.name"
+	case 3:
+		ref = map[string]any{"$replace": "h.name"}
+	default:
+		ref = []any{`$"{h.name}"`, 1}
+	}
+	tree := map[string]any{"h": hidden, "v": ref}
+	if ndChoice(2) == 1 {
+		// the marker as a key of the visible map, through an interpolated key
+		tree = map[string]any{"h": hidden, `$"{h.name}"`: 1}
+	}
+	vObserve("tree", tree)
+	outs, err := c06Eval(vCopy(tree))
+	vObserve("err", err != nil)
+	if err == nil {
+		for _, o := range outs {
+			vAssert("C07.viaref.clean", c07Clean(o))
+		}
+	}
+	vAssert("C07.viaref.refused", err != nil)
+	// control: the plain sibling of the marker comes through
+	ctl, cerr := c06Eval(map[string]any{"h": vCopy(hidden), "v": `$"{h.ok}"`})
+	vAssert("C07.viaref.control", cerr == nil && len(ctl) == 1 && vEq(ctl[0], map[string]any{"v": "plain"}))
+	vCover("viaref.checked")
 }
 
 // HarnessC07_outputs: the same question for every way a subtree can become
